@@ -436,6 +436,41 @@ def run(seed, tier, replay=None):
                 for sh, msg in fails[:1]:
                     rep.violate(what=f"{name}: {msg} (output shape must equal input shape)", input=dict(base, ys=[C.fhex(y) for y in ys[:6]]),
                                 call=f"NoisyQuadraticDistribution.{name}")
+        # ---- the same points in another container: float32 (only exactly representable points) and, for integral points,
+        # integer ndarrays / Python ints.  The property is about the real number y; numpy takes the precision of the whole
+        # computation from the dtype of y.  First pass: against the float64 evaluation of the same numbers; the oracle
+        # decides (property tolerances) only where they differ, so nothing is reported unless the property fails there.
+        if replay is None or (replay.get("violation") or replay).get("found_by") == "ys_container":
+            pts32 = [float(np.float32(y)) for y in ys if np.isfinite(y) and np.isfinite(np.float32(y))][:6]
+            ptsi = sorted({float(math.floor(a)), float(math.ceil(b)), float(round((a + b) / 2))}) if abs(a) + abs(b) < 1e15 else []
+            for label, pts, arr in (("float32", pts32, np.array(pts32, dtype=np.float32)),
+                                    ("int64", ptsi, np.array(ptsi, dtype=np.int64)),
+                                    ("pyint_list", ptsi, [int(v) for v in ptsi])):
+                if not pts or (label != "float32" and di % 4):
+                    continue
+                rep.count("ys_container=" + label)
+                try:
+                    with np.errstate(all="ignore"):
+                        v = (np.asarray(d.cdf(arr), dtype=float), np.asarray(d.pdf(arr), dtype=float))
+                        r = (np.asarray(d.cdf(np.array(pts)), dtype=float), np.asarray(d.pdf(np.array(pts)), dtype=float))
+                except Exception as e:  # noqa: BLE001
+                    rep.violate(what=f"cdf/pdf raised for points given as {label} (the same numbers as float64 are accepted)", error=repr(e),
+                                input=dict(base, ys=[C.fhex(y) for y in pts], ys_container=label), call="NoisyQuadraticDistribution.cdf")
+                    continue
+                if v[0].shape != (len(pts),) or v[1].shape != (len(pts),):
+                    rep.violate(what=f"cdf/pdf: points given as {label} of shape ({len(pts)},) gave shapes {v[0].shape}, {v[1].shape}",
+                                input=dict(base, ys=[C.fhex(y) for y in pts], ys_container=label), call="NoisyQuadraticDistribution.cdf")
+                    continue
+                for j_, y_ in enumerate(pts):
+                    rep.case(("container", label, base["a"], base["b"], c, base["o"], cv, y_), nontrivial=b > a)
+                    sus_c = not abs(v[0][j_] - r[0][j_]) <= 1e-7
+                    sus_p = not abs(v[1][j_] - r[1][j_]) <= 1e-6 * max(1.0, abs(r[1][j_]))
+                    if (sus_c or sus_p) and getattr(conf, "n_cont", 0) < 24:
+                        conf.n_cont = getattr(conf, "n_cont", 0) + 1
+                        if sus_c:
+                            conf.cdf(a, b, c, o, cv, y_, float(v[0][j_]), why="ys_container")
+                        if sus_p:
+                            conf.pdf(a, b, c, o, cv, y_, float(v[1][j_]), why="ys_container")
         w = b - a
         wref = w if w > 0 else (o if o > 0 else 1.0)
         reg = regime_of(a, b, o)
